@@ -8,7 +8,7 @@ CHECKS = {
     "C19": dict(
         category="fault_enumeration",
         technique="resource-fault injection: the native stack budget (main thread / 2 MiB thread, debug / release build) is the injected limit; every grid cell runs in an isolated worker process and the exit status is the oracle",
-        text="Grid of 48 scenarios (car/cdr/alist/vector/quote nesting x read, quote-evaluate, build, build and walk through the stepping API, keep live across a forced collection, equal?, write, drop; closure and continuation chains; non-tail recursion; nested expressions) x depth 10^3/10^4/10^5 x two stack budgets x two build profiles = 576 cells, each executed in its own process; a cell passes if the worker completes or returns an error. Thorough runs the whole grid (exhaustive over the grid), quick a seeded sample of 160 cells plus every cell listed as a known finding. 232 cells abort on the pinned tree and are listed as known findings (removing the recursion from parser, compiler, converter, marker, equal?, printer and drop is not a small patch); any other aborting cell is a VIOLATION.",
+        text="Grid of 52 scenarios (car/cdr/alist/vector/quote nesting x read, quote-evaluate, build, build and walk through the stepping API, keep live across a forced collection, equal?, write, drop; the list directions also: become garbage and be reclaimed, as built and after copying; closure and continuation chains; non-tail recursion; nested expressions) x depth 10^3/10^4/10^5 x two stack budgets x two build profiles = 624 cells, each executed in its own process; a cell passes if the worker completes or returns an error. Thorough runs the whole grid (exhaustive over the grid), quick a seeded sample of 160 cells plus every cell listed as a known finding. 232 cells abort on the pinned tree and are listed as known findings (removing the recursion from parser, compiler, converter, marker, equal?, printer and drop is not a small patch); any other aborting cell is a VIOLATION.",
         note="Outcomes near the stack limit were surveyed under three environment sizes; no cell flipped (c19_unstable_cells.json is empty). A 120 s watchdog per worker turns hangs into notes.",
         design="§5 C19",
     ),
@@ -85,7 +85,7 @@ CHECKS = {
     "C18": dict(
         category="exploration",
         technique="deterministic simulation: seeded collection schedules between two productions of a symbol name, name-equality model and intern-table audit",
-        text="Pairs of production routes (10 routes) over a palette of 37 names, first symbol held in a global, vector, closure, on the stack or dropped, with garbage and forced/production collections between the productions within one evaluation and across evaluations; eq? must equal name equality, both conversion laws must hold, and the intern table is audited (I4) after every collection. Sampling.",
+        text="Pairs of production routes (14 routes, incl. quasiquote templates and continuations) over a palette of 60 names plus seeded random names (identifiers, peculiar, non-ASCII, empty, digit-initial, number-shaped, whitespace, delimiters, backslashes, several escapes), first symbol held in a global, vector, closure, on the stack, in a captured stack, in a container that is itself a list element, or dropped, with garbage and forced/production collections between the productions within one evaluation and across evaluations; eq? must equal name equality, both conversion laws must hold, and the intern table is audited (I4) after every collection; one run in 16 is a mass scenario (thousands of symbols each held by a container of its own while the heap grows). Two KNOWN FINDINGS (digit-initial names: literal vs string->symbol) are reported as such. Sampling.",
         note="Trusted: a symbol's name is the Rust string the generator wrote; literal routes only for names the pinned reader spells as one symbol token.",
         design="§5 C18",
     ),
